@@ -246,7 +246,9 @@ def obligation_name(prop, u, pr):
 DEMANGLE = {}
 
 def finding_matches(kf, prop, unit, pr):
-    if kf.get('property') != prop: return False
+    # a unit re-run under another property (name prefix 'Cxx_', e.g. C03 / C20 import units of C11) keeps the open findings of the property it comes from:
+    # they are reported as KNOWN-FINDING there too, never as a violation of the importing property
+    if kf.get('property') != prop and not unit.startswith(str(kf.get('property')) + '_'): return False
     if kf.get('unit') and kf['unit'] != unit: return False
     m = kf.get('match', {})
     if 'desc' in m and m['desc'] not in pr['desc']: return False
